@@ -276,6 +276,33 @@ _reg("get_property", "read", M.C_GET_PROPERTY,
      lambda mb, op: mb.get_property(op["tag"], op.get("index", 0)),
      cmds=lambda op: [(M.C_GET_PROPERTY, 0, (op["tag"], op.get("index", 0)))],
      truth=lambda core, op: (list(core.props[op["tag"]]) if op["tag"] in core.props else None))
+# composite listing: one GetProperty exchange per known tag, in the order of the tag table; a property the device refuses is left
+# out, any other failure of an exchange fails the call. No command of its own (tag 0: no forced device status). The returned
+# objects are rendered as [tag, text]; the text of a value is the one SPSDK's own value parser gives for the words the device holds
+# (the oracle is about what travels over the link and which entries are listed, not about the formatting of a value).
+_PROP_TAGS = list(range(0x00, 0x23)) + [0xFF]
+
+
+def _proplist(lst):
+    return None if lst is None else [[int(p.tag), p.to_str()] for p in lst]
+
+
+def _proplist_truth(core, op):
+    from spsdk.mboot.properties import parse_property_value  # noqa: PLC0415
+
+    out = []
+    for t in _PROP_TAGS:
+        if t in core.props:
+            v = parse_property_value(t, list(core.props[t]))
+            if v is not None:
+                out.append([t, v.to_str()])
+    return out
+
+
+_reg("get_property_list", "read", 0,
+     lambda mb, op: _proplist(mb.get_property_list()),
+     cmds=lambda op: [(M.C_GET_PROPERTY, 0, (t, 0)) for t in _PROP_TAGS],
+     truth=_proplist_truth)
 _reg("set_property", "write", M.C_SET_PROPERTY,
      lambda mb, op: mb.set_property(op["tag"], op["value"]),
      cmds=lambda op: [(M.C_SET_PROPERTY, 0, (op["tag"], op["value"]))],
@@ -505,7 +532,7 @@ def mb_check_faultfree(o: Oracle, sess: MbSession, k: int, op: dict, res: Res, p
         o.check("write_data", ok, name, "%s: %s" % (where, detail))
     # command packets seen by the device
     exp = _mb_expected_cmds(op, sess)
-    own_probe = name == "get_property" and op["tag"] == M.P_MAX_PACKET_SIZE
+    own_probe = name == "get_property_list" or (name == "get_property" and op["tag"] == M.P_MAX_PACKET_SIZE)
     got = [e[1:] for e in core.log[pre["log"]:] if e[0] == "cmd" and (own_probe or e != MPS_PROBE)]
     if exp is not None:
         if status != 0:
@@ -576,6 +603,9 @@ def mb_check_fault(o: Oracle, sess: MbSession, k: int, op: dict, res: Res, pre: 
             want = ref.value
             v = res.value
             same = bytes(v) == bytes(want) if isinstance(want, (bytes, bytearray)) and isinstance(v, (bytes, bytearray)) else v == want
+            if name == "get_property_list" and not same and sess.link.plan.kind == "errstatus" and isinstance(v, list):
+                # an error status is the device's way of saying "no such property": the listing then lacks exactly that entry
+                same = len(v) == len(want) - 1 and any(want[:i] + want[i + 1:] == v for i in range(len(want)))
             o.check("F1", same, "read:" + name, "%s: success reported with %s, the device holds %s" % (where, _short(v), _short(want)))
         elif name == "reset" and _response_lost(sess, k):
             # A reset may take effect before the response has left the device, so for this command alone the protocol's hosts
@@ -1107,6 +1137,7 @@ def _templates(tier: str) -> list:
         [{"op": "set_property", "tag": 0x0A, "value": 0}, {"op": "get_property", "tag": 0x77}, {"op": "flash_erase_region", "addr": 0x1000, "length": 64}],
         [{"op": "read_memory", "addr": A, "length": 64, "dev_fail": {"stage": "final", "status": 10201}}],
         [{"op": "flash_read_resource", "addr": 0, "length": 36}, {"op": "fuse_read", "addr": 4, "length": 4}],
+        [{"op": "get_property_list"}],
     ]
     if tier != "quick":
         mb += [
@@ -1207,7 +1238,7 @@ _MEM_IDS = st.sampled_from([0, 0, 0, 1, 9, 0x100, 0x101])
 def _mb_op(draw, mps: int, tier: str, hid: bool):
     name = draw(st.sampled_from([
         "write_memory", "write_memory", "write_memory", "read_memory", "read_memory", "read_memory", "fill_memory", "flash_erase_region", "flash_erase_all",
-        "get_property", "get_property", "set_property", "receive_sb_file", "receive_sb_file", "flash_program_once", "efuse_program_once", "flash_read_once",
+        "get_property", "get_property", "get_property_list", "set_property", "receive_sb_file", "receive_sb_file", "flash_program_once", "efuse_program_once", "flash_read_once",
         "efuse_read_once", "load_image", "configure_memory", "call", "execute", "reset", "kp_enroll", "kp_set_intrinsic_key", "kp_write_nonvolatile",
         "kp_read_nonvolatile", "kp_set_user_key", "kp_write_key_store", "kp_read_key_store", "generate_key_blob", "flash_read_resource",
         "flash_security_disable", "reliable_update", "update_life_cycle", "ele_message", "fuse_program", "fuse_read", "flash_erase_all_unsecure"]))
